@@ -263,6 +263,19 @@ impl<G: ParRig> Hist<G> {
         }
     }
 
+    /// Put an existing world (with a model describing it) into slot 0 of a fresh history.
+    pub fn adopt(&mut self, world: W<G>, model: Model, origin: &'static str) {
+        for k in 0..G::N {
+            self.ledger_base[k] -= model.count_comp(k) as i64;
+        }
+        for r in 0..G::NRES {
+            self.ledger_base[G::N + r] -= 1;
+        }
+        let top = model.ents.values().flatten().flatten().copied().max().unwrap_or(0).max(model.res.iter().copied().max().unwrap_or(0));
+        self.next_val = self.next_val.max(top + 1);
+        self.slots[0] = Some(Slot { world, model, mirror: None, origin, last_audit: None, mirror_kinds: Vec::new() });
+    }
+
     fn val(&mut self) -> u64 {
         self.next_val += 1;
         self.next_val
